@@ -262,6 +262,8 @@ func kindName(k int) string {
 		return "lock"
 	case k == vs.EvPoolGet || k == vs.EvPoolPut:
 		return "pool"
+	case k == vs.EvAtomic:
+		return "atomic"
 	case k == evLoadIn || k == evLoadOK || k == evLoadErr || k == evLoadMid:
 		return "load"
 	case k == evOpBegin || k == evOpEnd:
@@ -276,7 +278,7 @@ func yieldBit(k int) int {
 		return scn.YNav
 	case "enter":
 		return scn.YEnter
-	case "lock":
+	case "lock", "atomic":
 		return scn.YLock
 	case "pool":
 		return scn.YPool
@@ -329,6 +331,11 @@ func Install() {
 		var a uint64
 		if kind == vs.EvEnter {
 			a = scn.HashString(name)
+			if s.trace {
+				if cur := s.current.Load(); cur >= 0 {
+					s.tasks[cur].note = name
+				}
+			}
 		} else {
 			a = uint64(obj)
 		}
@@ -351,7 +358,7 @@ func (s *Sim) onEvent(kind int, a uint64, nav *world.Nav) {
 	}
 	isLock := kind >= vs.EvRLock && kind <= vs.EvUnlock
 	var ha uint64 = a
-	if isLock || kind == vs.EvPoolGet || kind == vs.EvPoolPut {
+	if isLock || kind == vs.EvPoolGet || kind == vs.EvPoolPut || kind == vs.EvAtomic {
 		ha = 0 // addresses are not reproducible; lock ids are logged by the model below
 	}
 	e.Steps++
@@ -416,6 +423,8 @@ func evName(k int) string {
 		return "PoolGet"
 	case vs.EvPoolPut:
 		return "PoolPut"
+	case vs.EvAtomic:
+		return "atomic-op"
 	case evOpBegin:
 		return "op-begin"
 	case evOpEnd:
